@@ -282,6 +282,32 @@ def run(ctx: Ctx) -> Result:
         if top.get(f'flag{i}=on') == top.get(f'flag{i}=off'):
             res.notes.append(f'probe for flag {i} is insensitive')
             res.disagreements.append({'probe': f'flag{i}', 'problem': 'on/off observables equal at top level - probe lost its sensitivity'})
+    # contracts registered VM-wide stay reachable in EVERY script of an authorization, at every nesting (not only in the first script)
+    def vmwide():
+        F = vmrun.impl.functions()
+        calls = []
+        class _C:
+            def abi(self, args): calls.append(1); return [b'\xff']
+        cid = b'C09-vmwide'
+        inv = push(b'\x00') + push(cid) + op('INVOKE')
+        with vmrun.Env(vmrun.Cfg()) as env:
+            F.add_contract(cid, _C())
+            try:
+                for nest in [n_ for n_ in nestings if len(n_) <= 1] + [n_ for n_ in nestings if len(n_) == 2][::7]:
+                    if any(c in ('MERKLEVAL', 'TAPROOT') for c in nest): continue
+                    b = inv
+                    for cname in reversed(nest): b = CONTEXTS[cname](b)
+                    for scripts in ([op('TRUE') + op('POP0'), b], [op('TRUE') + op('POP0'), op('TRUE') + op('POP0'), b], [b]):
+                        del calls[:]
+                        res.note_case(('vmwide-contract', nest, len(scripts)))
+                        try: got = F.run_auth_scripts(scripts)
+                        except BaseException as e: got = 'RAISED:' + type(e).__name__
+                        if (got is not True or len(calls) != 1) and len(res.violations) < 10:
+                            res.violations.append({'input': {'probe': 'contract registered with add_contract, invoked in the last script', 'nesting': list(nest), 'cfg': vmrun.Cfg().line(), 'cache': '-', 'script': b.hex(), 'scripts': [x.hex() for x in scripts]},
+                                                   'expected': 'True, the contract called exactly once', 'observed': f'{got}, called {len(calls)} time(s)', 'how_to_run': './check C09 --tier quick'})
+            finally:
+                F.remove_contract(cid)
+    vmrun.in_big_thread(vmwide)
     # K2: the flag instructions do not affect integer flags
     cfg = vmrun.Cfg()
     k2a = vmrun.run_impl(cfg, {}, op('SET_FLAG') + b'\x01\x01')
